@@ -1,7 +1,7 @@
 package commands
 
 import (
-	"strings"
+	"fmt"
 
 	"github.com/spf13/cobra"
 
@@ -33,21 +33,26 @@ func runWipe(env *execenv.Env) error {
 
 	// RemoveAll only knows the entities that exist locally: also drop what is left of the
 	// remote tracking refs (entities fetched but never merged, or removed locally).
-	remoteRefs, err := env.Repo.ListRefs("refs/remotes/")
+	remotes, err := env.Repo.GetRemotes()
 	if err != nil {
 		_ = env.Backend.Close()
 		return err
 	}
-	for _, ref := range remoteRefs {
-		// refs/remotes/<remote>/<namespace>/<id>
-		split := strings.Split(ref, "/")
-		if len(split) != 5 || (split[3] != bug.Namespace && split[3] != identity.Namespace) {
-			continue
-		}
-		err = env.Repo.RemoveRef(ref)
-		if err != nil {
-			_ = env.Backend.Close()
-			return err
+	for remote := range remotes {
+		for _, namespace := range []string{bug.Namespace, identity.Namespace} {
+			// a remote name may contain slashes: list by prefix instead of splitting the ref name
+			refs, err := env.Repo.ListRefs(fmt.Sprintf("refs/remotes/%s/%s/", remote, namespace))
+			if err != nil {
+				_ = env.Backend.Close()
+				return err
+			}
+			for _, ref := range refs {
+				err = env.Repo.RemoveRef(ref)
+				if err != nil {
+					_ = env.Backend.Close()
+					return err
+				}
+			}
 		}
 	}
 
